@@ -6,7 +6,7 @@ BEHAVIOURAL = {
     "C01": "model_checking", "C02": "model_checking", "C03": "model_checking", "C04": "model_checking",
     "C05": "model_checking", "C06": "model_checking", "C09": "model_checking", "C13": "model_checking",
     "C14": "model_checking", "C16": "model_checking", "C08": "model_checking",
-    "C10": "exploration", "C11": "exploration",
+    "C10": "exploration", "C11": "exploration", "C12": "model_checking",
 }
 
 
@@ -44,6 +44,8 @@ def check(pid, tier):
     out = checks.Outcome(pid, tier)
     if pid == "C10":
         return check_c10(out, tier)
+    if pid == "C15":
+        return check_c15(out, tier)
     if pid in BEHAVIOURAL:
         checks.behavioural(pid, tier, out)
         if pid == "C11":
@@ -252,4 +254,45 @@ def check_c10(out, tier):
                             "differently filled storage, copied and the original destroyed; every random choice is compared with the stream TLC derives from "
                             "spec/Prng.tla")
     out.coverage["builtin_rng_records"] = r["records"]
+    return out.finish("exploration")
+
+
+def check_c15(out, tier):
+    camp = checks.c15_campaign(tier)
+    for e in camp["errors"]:
+        out.violations.append(dict(replay="fixtures/", what="build %s/%s fails under this feature set: %s" % (e["fixture"], e["variant"], e["msg"][:300].replace("\n", " "))))
+    steps, n = 0, 0
+    groups = {}
+    for run in camp["runs"]:
+        steps += run["checked"]
+        base = run["fixture"].split("_")[0]
+        groups.setdefault(base, []).append(run)
+        for te in run["tlc_errors"]:
+            out.machinery.append("TLC could not walk %s: %s" % (te["file"], te["msg"][-300:]))
+        for c in run["crashes"]:
+            n += 1
+            out.violations.append(dict(replay=checks.write_replay("C15", run["fixture"], run["variant"], c["file"], c["records"] + 1, ["crash"], n),
+                                       what="executor %s died: %s" % (run["fixture"], c["stderr"][-300:].replace("\n", " "))))
+        bad = [d for d in run["diffs"] if not d["tag"].endswith(".D10") and d["tag"] not in checks.UNATTRIBUTED]
+        per = {}
+        for d in bad:
+            per.setdefault(d["l"], []).append(d)
+        for l, ds in sorted(per.items())[:5]:
+            n += 1
+            out.violations.append(dict(replay=checks.write_replay("C15", run["fixture"], run["variant"], ds[0]["file"], l, sorted({d["tag"] for d in ds}), n),
+                                       what="%s (features %s, %s): record %d deviates from the specification: %s" % (run["fixture"], ",".join(run["features"]) or "none", run["variant"], l,
+                                            "; ".join("%s expected %s observed %s" % (d["tag"], d["detail"][0][:100], d["detail"][-1][:100]) for d in ds[:2]))))
+    for base, runs in groups.items():
+        hashes = {r["behaviour_hash"] for r in runs}
+        if len(hashes) > 1:
+            out.violations.append(dict(replay="fixtures/%s.json" % base, what="the same program behaves differently across builds: " +
+                                       ", ".join("%s=%s" % (r["fixture"], r["behaviour_hash"][:8]) for r in runs)))
+    out.coverage.update(dict(
+        evaluations=steps, distinct_nontrivial=len(camp["runs"]),
+        rule="the same seeded command lists (restricted to the common feature subset) on every build of the matrix {feature sets} x {single header, development "
+             "headers} x {g++ -std=c++14, clang++ -std=c++11}; each trace validated by TLC against the one specification and the callback/configuration "
+             "sequences of all builds of a fixture compared with each other",
+        samples=[dict(build=r["fixture"], features=r["features"], compiler_variant=r["variant"], steps=r["checked"]) for r in camp["runs"][:4]],
+        builds=[dict(build=r["fixture"], features=r["features"], variant=r["variant"]) for r in camp["runs"]]))
+    out.assumptions += ["the enumerated feature sets stand for all 2^7 combinations", "TLC and the executor as for the behavioural properties"]
     return out.finish("exploration")
